@@ -281,7 +281,61 @@ def r_signedmax2(d, x):
     return {'r': a if signed(a, d['wa']) >= signed(b, d['wb']) else b}
 
 
+def _sg(v, w):
+    return v - (1 << w) if v >> (w - 1) else v
+
+
+# helper function -> (argument shape, value as a Python integer before reduction to the width of the wire the helper returns)
+HELPERS = {
+    'hw_equal': ('ab', lambda d, x: int(x['a'] == x['b'])),
+    'hw_equal_constant': ('ak', lambda d, x: int(x['a'] == d['k'] % (1 << d['w']))),
+    'hw_not_equal_constant': ('ak', lambda d, x: int(x['a'] != d['k'] % (1 << d['w']))),
+    'hw_gt_constant': ('ak', lambda d, x: int(x['a'] > d['k'])),
+    'hw_lt_constant': ('ak', lambda d, x: int(x['a'] < d['k'])),
+    'hw_ge_constant': ('ak', lambda d, x: int(x['a'] >= d['k'])),
+    'hw_signed_gt_constant': ('ak', lambda d, x: int(_sg(x['a'], d['w']) > d['k'])),
+    'hw_signed_ge_constant': ('ak', lambda d, x: int(_sg(x['a'], d['w']) >= d['k'])),
+    'hw_and2': ('ab', lambda d, x: x['a'] & x['b']),
+    'hw_or2': ('ab', lambda d, x: x['a'] | x['b']),
+    'hw_xor2': ('ab', lambda d, x: x['a'] ^ x['b']),
+    'hw_and3': ('abc', lambda d, x: x['a'] & x['b'] & x['c']),
+    'hw_and4': ('abcd', lambda d, x: x['a'] & x['b'] & x['c'] & x['d']),
+    'hw_not': ('a', lambda d, x: ~x['a']),
+    'hw_buf': ('a', lambda d, x: x['a']),
+    'hw_or_bits': ('a', lambda d, x: int(x['a'] != 0)),
+    'hw_sign': ('a', lambda d, x: x['a'] >> (d['w'] - 1)),
+    'hw_and': ('list', lambda d, x: _fold(d, x, lambda p, q: p & q)),
+    'hw_or': ('list', lambda d, x: _fold(d, x, lambda p, q: p | q)),
+    'hw_mux2': ('sab', lambda d, x: x['b'] if x['sel'] else x['a']),
+    'hw_if': ('sab', lambda d, x: x['a'] if x['sel'] else x['b']),
+    'hw_range': ('aud', lambda d, x: (x['a'] >> d['down']) & ((1 << (d['up'] - d['down'] + 1)) - 1)),
+    'hw_add': ('ab', lambda d, x: x['a'] + x['b']),
+    'hw_sub': ('ab', lambda d, x: x['a'] - x['b']),
+    'hw_mul': ('ab', lambda d, x: x['a'] * x['b']),
+    'hw_neg': ('a', lambda d, x: -x['a']),
+    'hw_abs': ('a', lambda d, x: abs(_sg(x['a'], d['w']))),
+    'hw_signed_add': ('ab', lambda d, x: _sg(x['a'], d['w']) + _sg(x['b'], d['w'])),
+    'hw_div': ('ab', lambda d, x: None if x['b'] == 0 else x['a'] // x['b']),
+    'hw_mod': ('ab', lambda d, x: None if x['b'] == 0 else x['a'] % x['b']),
+}
+
+
+def _fold(d, x, f):
+    v = x['in0']
+    for i in range(1, d['n']):
+        v = f(v, x['in%d' % i])
+    return v
+
+
+def r_helper(d, x):
+    v = HELPERS[d['fn']][1](d, x)
+    if v is None:
+        return None
+    return {'r': v % (1 << d['_rw'])}
+
+
 REF = {
+    'Helper': r_helper,
     'And': r_and, 'Or': r_or, 'Xor': r_xor, 'Nor': r_nor,
     'And2': r_and2, 'Or2': r_or2, 'Xor2': r_xor2, 'Nand2': r_nand2, 'Nor2': r_nor2,
     'Not': r_not, 'Buf': r_buf, 'BufEnable': r_bufenable, 'AndBits': r_andbits, 'OrBits': r_orbits,
